@@ -20,6 +20,8 @@ R1=$(run_demo)
 SUITE=$(cd "$WT" && PYTHONPATH="$WT/src" /venv/bin/python -m pytest -q -p no:cacheprovider -n "$J" src/_gettsim_tests 2>&1 | tail -1)
 git -C /repo worktree remove --force "$WT"
 echo "$NAME: demo_clean_exit=$R0 demo_mutant_exit=$R1 suite='$SUITE'"
-OK=no; [[ "$R0" == 0 && "$R1" != 0 && "$SUITE" == *"5426 passed"* ]] && OK=yes
+PASSED=$(echo "$SUITE" | grep -o '[0-9]* passed' | grep -o '[0-9]*'); FAILED=$(echo "$SUITE" | grep -o '[0-9]* failed' | grep -o '[0-9]*')
+# the baseline is 5426 passed / 11 failed; a change that adds a rule may add a parametrised test case
+OK=no; [[ "$R0" == 0 && "$R1" != 0 && "${PASSED:-0}" -ge 5426 && "${FAILED:-99}" -le 11 ]] && OK=yes
 echo "{\"demo_clean_exit\": $R0, \"demo_mutant_exit\": $R1, \"suite\": \"$SUITE\", \"confirmed\": \"$OK\"}" > "$D/confirm.json"
 [[ $OK == yes ]]
